@@ -23,6 +23,7 @@ use std::cell::RefCell;
 use std::collections::HashSet;
 use std::env;
 use std::io;
+use std::mem;
 
 use redo::logs::LogBuilder;
 use redo::{
@@ -62,16 +63,24 @@ pub(crate) fn run() -> Result<(), Error> {
         }
     }
     let cwd = env::current_dir()?;
+    let mut out: Vec<String> = Vec::new();
     for mut f in targets {
         if !redo::is_dirty(&mut ptx, &mut f, &mut cb)?.is_clean() {
             let p = redo::relpath(env2.base().join(f.name()), &cwd)?;
-            println!(
-                "{}",
+            out.push(
                 p.as_os_str()
                     .to_str()
                     .ok_or(anyhow!("could not get filename as UTF-8"))?
+                    .to_string(),
             );
         }
+    }
+    // Print only after the transaction (and its write lock) is gone: whoever
+    // reads our output may take its time.
+    mem::drop(cb);
+    mem::drop(ptx);
+    for line in out {
+        println!("{}", line);
     }
     Ok(())
 }
